@@ -1009,6 +1009,9 @@ class NumbaBackend(NumpyBackend):
         from . import grids
 
         cell_volume = grids.make_cell_volume_getter(grid=grid, flat_index=False)
+        # cell volumes are indexed by valid cells, while the cell indices obtained below
+        # refer to the full data array when ghost cells are included
+        shift = 1 if with_ghost_cells else 0
 
         if grid.num_axes == 1:
             # specialize for 1-dimensional interpolation
@@ -1040,8 +1043,8 @@ class NumbaBackend(NumpyBackend):
                     msg = "Point lies outside the grid domain"
                     raise DomainError(msg)
 
-                data[..., c_li] += w_l * amount / cell_volume(c_li)  # type: ignore
-                data[..., c_hi] += w_h * amount / cell_volume(c_hi)  # type: ignore
+                data[..., c_li] += w_l * amount / cell_volume(c_li - shift)  # type: ignore
+                data[..., c_hi] += w_h * amount / cell_volume(c_hi - shift)  # type: ignore
 
         elif grid.num_axes == 2:
             # specialize for 2-dimensional interpolation
@@ -1078,14 +1081,14 @@ class NumbaBackend(NumpyBackend):
                     msg = "Point lies outside the grid domain"
                     raise DomainError(msg)
 
-                cell_vol = cell_volume(c_xli, c_yli)
+                cell_vol = cell_volume(c_xli - shift, c_yli - shift)
                 data[..., c_xli, c_yli] += w_xl * w_yl * amount / cell_vol  # type: ignore
-                cell_vol = cell_volume(c_xli, c_yhi)
+                cell_vol = cell_volume(c_xli - shift, c_yhi - shift)
                 data[..., c_xli, c_yhi] += w_xl * w_yh * amount / cell_vol  # type: ignore
 
-                cell_vol = cell_volume(c_xhi, c_yli)
+                cell_vol = cell_volume(c_xhi - shift, c_yli - shift)
                 data[..., c_xhi, c_yli] += w_xh * w_yl * amount / cell_vol  # type: ignore
-                cell_vol = cell_volume(c_xhi, c_yhi)
+                cell_vol = cell_volume(c_xhi - shift, c_yhi - shift)
                 data[..., c_xhi, c_yhi] += w_xh * w_yh * amount / cell_vol  # type: ignore
 
         elif grid.num_axes == 3:
@@ -1127,24 +1130,24 @@ class NumbaBackend(NumpyBackend):
                     msg = "Point lies outside the grid domain"
                     raise DomainError(msg)
 
-                cell_vol = cell_volume(c_xli, c_yli, c_zli)
+                cell_vol = cell_volume(c_xli - shift, c_yli - shift, c_zli - shift)
                 data[..., c_xli, c_yli, c_zli] += w_xl * w_yl * w_zl * amount / cell_vol  # type: ignore
-                cell_vol = cell_volume(c_xli, c_yli, c_zhi)
+                cell_vol = cell_volume(c_xli - shift, c_yli - shift, c_zhi - shift)
                 data[..., c_xli, c_yli, c_zhi] += w_xl * w_yl * w_zh * amount / cell_vol  # type: ignore
 
-                cell_vol = cell_volume(c_xli, c_yhi, c_zli)
+                cell_vol = cell_volume(c_xli - shift, c_yhi - shift, c_zli - shift)
                 data[..., c_xli, c_yhi, c_zli] += w_xl * w_yh * w_zl * amount / cell_vol  # type: ignore
-                cell_vol = cell_volume(c_xli, c_yhi, c_zhi)
+                cell_vol = cell_volume(c_xli - shift, c_yhi - shift, c_zhi - shift)
                 data[..., c_xli, c_yhi, c_zhi] += w_xl * w_yh * w_zh * amount / cell_vol  # type: ignore
 
-                cell_vol = cell_volume(c_xhi, c_yli, c_zli)
+                cell_vol = cell_volume(c_xhi - shift, c_yli - shift, c_zli - shift)
                 data[..., c_xhi, c_yli, c_zli] += w_xh * w_yl * w_zl * amount / cell_vol  # type: ignore
-                cell_vol = cell_volume(c_xhi, c_yli, c_zhi)
+                cell_vol = cell_volume(c_xhi - shift, c_yli - shift, c_zhi - shift)
                 data[..., c_xhi, c_yli, c_zhi] += w_xh * w_yl * w_zh * amount / cell_vol  # type: ignore
 
-                cell_vol = cell_volume(c_xhi, c_yhi, c_zli)
+                cell_vol = cell_volume(c_xhi - shift, c_yhi - shift, c_zli - shift)
                 data[..., c_xhi, c_yhi, c_zli] += w_xh * w_yh * w_zl * amount / cell_vol  # type: ignore
-                cell_vol = cell_volume(c_xhi, c_yhi, c_zhi)
+                cell_vol = cell_volume(c_xhi - shift, c_yhi - shift, c_zhi - shift)
                 data[..., c_xhi, c_yhi, c_zhi] += w_xh * w_yh * w_zh * amount / cell_vol  # type: ignore
 
         else:
